@@ -206,4 +206,77 @@ example : ∃ (angles : List ℝ) (period anis : Nat → ℝ) (x x' : Nat → Na
     rw [Finset.sum_eq_zero hz] at hrow
     norm_num at hrow
 
+/-! ### in-place setter histories of the MODEL object — `anis`, `angles`, `dim`, scalar `len_scale`, and per-axis
+`len_scale` LISTS, which redefine the anisotropy ratios as `l_i / l_0` (`GSV.Model.Geo.mStep`)
+
+`SRF.__call__` hands the model object as it is NOW to `Fourier.update` and isometrizes the positions (given or stored)
+with the same object; the mode grid is rebuilt from the CURRENT ratios, the main axes are the rows of the derotation of
+the CURRENT angles. -/
+
+/-- what the Fourier generator reads of a plain model object in setter state `s`: the dimension and the CURRENT ratios
+    (`tag` stands for everything else the comparison and the spectrum use) -/
+def mdlOfState (s : Model.Geo.MState ℝ) (tag : Nat) : Mdl ℝ := ⟨s.dim, fun d => s.anis.getD d 1, tag⟩
+
+/-- a model object that went through the constructor and any setters has non-zero (positive) ratios on every axis -/
+theorem anisP_mdlOfState_pos {s : Model.Geo.MState ℝ} (hv : C12.MValid s) (tag : Nat) :
+    ∀ d < s.dim, 0 < anisP (mdlOfState s tag).anis d := by
+  intro d hd
+  obtain ⟨_, hlen, _, hpos⟩ := hv
+  unfold anisP mdlOfState
+  by_cases h0 : d = 0
+  · simp [h0]
+  · rw [if_neg h0]
+    have hlt : d - 1 < s.anis.length := by omega
+    simp only [List.getD_eq_getElem?_getD, List.getElem?_eq_getElem hlt, Option.getD_some]
+    exact hpos _ (List.getElem_mem hlt)
+
+/-- **C17 after in-place changes of the model object, every dimension**: constructor of the model, ANY history of
+    `dim` / `len_scale` (one value or one per axis) / `anis` / `angles` assignments (accepted or rejected), any history of
+    generator updates, then an SRF call: the field repeats when every point is moved by an integer multiple of the
+    stored period of axis `d₀` along the `d₀`-th main axis of the model AS IT IS NOW (row `d₀` of the derotation of the
+    current angles), the grid being built from the CURRENT ratios. -/
+theorem srf_after_model_setters_periodic (eqv : Mdl ℝ → Mdl ℝ → Bool) (heq : EqvExact eqv) (us : List (Upd ℝ))
+    {d : Nat} {ls an ag : List ℝ} {s0 : Model.Geo.MState ℝ} (h0 : Model.Geo.mInit d ls an ag = .ok s0)
+    (mops : List (Model.Geo.MOp ℝ)) (tag : Nat) (seed : Option Nat)
+    (sched : Sched) (hs : sched.Admissible) (sf z1 z2 : Nat → ℝ) (N X : Nat) (x x' : Nat → Nat → ℝ)
+    (d₀ : Nat) (c : Nat → ℤ) :
+    let s := Model.Geo.mFinal s0 mops
+    let m := mdlOfState s tag
+    let st0 := run eqv blank us
+    let st := (update eqv st0 ⟨some m, seed, none, none⟩).1
+    d₀ < s.dim → st0.hasPeriod = true → s.dim = st0.model.dim →
+    (∀ d < s.dim, st.period d ≠ 0) →
+    (∀ e < s.dim, ∀ i < X, x' e i = x e i + (c i : ℝ) * st.period d₀ * Model.Geo.matrixDerotate s.dim s.angles d₀ e) →
+    ∀ i, srfField sched (Model.Geo.matrixDerotate s.dim s.angles) m.anis sf st.modes z1 z2 N x' s.dim X i =
+      srfField sched (Model.Geo.matrixDerotate s.dim s.angles) m.anis sf st.modes z1 z2 N x s.dim X i := by
+  intro s m st0 st hd₀ hp hdim hL hshift i
+  have hv : C12.MValid s := C12.mFinal_valid (C12.mInit_valid h0) mops
+  exact srf_after_updates_periodic_any_dim eqv heq us m s.angles seed sched hs sf z1 z2 N X x x' d₀ hd₀ c hp hdim hL
+    (fun d hd => ne_of_gt (anisP_mdlOfState_pos hv tag d hd)) hshift i
+
+/-- **a per-axis `len_scale` list redefines the ratios the grid is built with**: after `model.len_scale = [l₀, l₁, …]`
+    (one positive entry per axis) the generator reads the ratios `l_i / l₀` — the previous ratios are forgotten, the
+    angles stay — so `delta_k` of axis `i ≥ 1` is `2π / L_i · l_i / l₀` -/
+theorem lenlist_redefines_grid_ratios (s : Model.Geo.MState ℝ) (l0 l1 : ℝ) (ls : List ℝ) (hd : s.dim = ls.length + 2)
+    (h0 : 0 < l0) (h : ∀ l ∈ l1 :: ls, 0 < l) (tag : Nat) (period : Nat → ℝ) :
+    ∃ s', Model.Geo.mStep s (.setLenScale (l0 :: l1 :: ls)) = .ok s' ∧ s'.angles = s.angles ∧ s'.dim = s.dim ∧
+      ∀ k, (hk : k < (l1 :: ls).length) →
+        anisP (mdlOfState s' tag).anis (k + 1) = (l1 :: ls)[k] / l0 ∧
+        deltaK period (mdlOfState s' tag).anis (k + 1) = 2 * Real.pi / period (k + 1) * ((l1 :: ls)[k] / l0) := by
+  refine ⟨_, C12.setLenScale_list s l0 l1 ls hd h0 h, rfl, rfl, ?_⟩
+  intro k hk
+  have ha : anisP (mdlOfState { s with lenScale := l0, anis := (l1 :: ls).map fun l => l / l0 } tag).anis (k + 1) = (l1 :: ls)[k] / l0 := by
+    have hk' : k < ((l1 :: ls).map fun l => l / l0).length := by simpa using hk
+    simp only [anisP, mdlOfState, Nat.add_sub_cancel, Nat.succ_ne_zero, if_false, List.getD_eq_getElem?_getD,
+      List.getElem?_eq_getElem hk', Option.getD_some, List.getElem_map]
+  refine ⟨ha, ?_⟩
+  unfold deltaK
+  rw [ha]
+  norm_num [Transc.pi]
+
+example : ∃ s' : Model.Geo.MState ℝ, Model.Geo.mStep ⟨2, 3, [1 / 2], [0.4]⟩ (.setLenScale [4, 1]) = .ok s' ∧
+    anisP (mdlOfState s' 0).anis 1 = 1 / 4 := by
+  obtain ⟨s', h1, _, _, h4⟩ := lenlist_redefines_grid_ratios ⟨2, 3, [1 / 2], [0.4]⟩ 4 1 [] rfl (by norm_num) (by simp) 0 (fun _ => 1)
+  exact ⟨s', h1, by simpa using (h4 0 (by simp)).1⟩
+
 end GSV.Props.C17
